@@ -59,7 +59,7 @@ for pid in sorted(registry.P):
             'evidence_file': 'evidence/%s.json' % pid,
             'replay_cmd_template': 'python3 check.py %s --replay {path}' % pid,
             'engine': 'omplx+engines',
-            'level_claimed': {'category': 'other', 'text': v['text'], 'design_ref': 'DESIGN.md section 3, ' + pid + '; as built: Revisions R1.2'},
+            'level_claimed': {'category': 'other', 'text': v['text'], 'design_ref': 'DESIGN.md section 3, ' + pid + '; as built: Revisions R1.2 and R2'},
             'level_note': v['note'],
             'technique': 'static analysis: ' + v['technique'],
         })
